@@ -723,6 +723,17 @@ func runC17(c *run.Ctx) {
 				okLoad = false
 				break
 			}
+			if i%5 == 2 {
+				// the application registers scalar implementations of its own for the scalars the documents declared AFTER
+				// the load (ggql keeps the declared one and does not complain): the one schema introspection describes stays
+				// the one that was loaded
+				for _, t := range ms.Types {
+					if t.Kind == model.Scalar {
+						_ = root.AddTypes(&ggql.Scalar{Base: ggql.Base{N: t.Name}})
+						c.Count("scalars_added_again_through_the_go_api_after_the_load", 1)
+					}
+				}
+			}
 			roots[bk] = root
 		}
 		if !okLoad {
